@@ -119,7 +119,7 @@ func NewApps(conf *config.Configuration, cch cache.Cache) *Apps {
 	log := zerolog.Nop()
 
 	if conf.Serve.Proxy.Timeout.Read == 0 {
-		conf.Serve.Proxy.Timeout.Read = 5 * time.Second
+		conf.Serve.Proxy.Timeout.Read = 120 * time.Second
 	}
 
 	a.Decision = decision.VerifNewService(conf, cch, log, a.execDec).Handler
@@ -297,7 +297,7 @@ func (a *Apps) DoEnvoy(r *Req) *Resp {
 		},
 	}}}
 
-	ctx, cancel := context.WithTimeout(context.Background(), 10*time.Second)
+	ctx, cancel := context.WithTimeout(context.Background(), 120*time.Second)
 	defer cancel()
 
 	resp, err := a.Envoy.Check(ctx, creq)
